@@ -196,9 +196,12 @@ def h_layer(e, cfg):
             Pm.give(k, cps[k])
         return neural.RecurrentSerial(cps["ff"], cps["lat"], cps["fb"], cps["nff"], cps["nfb"]), [cps["nff"], cps["nfb"]]
 
+    feed = ["ab"]
+
     def step(layer, xs):
         if kind == "biclique":
-            return layer({"a": (xs[0],), "b": (xs[1],)})
+            # (partial input: only the named connections are stepped and combined)
+            return layer({k: (xs[i],) for i, k in enumerate("ab") if k in feed[0]})
         return layer(xs[0])
 
     def flat(o):
@@ -208,6 +211,7 @@ def h_layer(e, cfg):
     Qs = [build(1) for _ in range(B)]
     for t in range(Tn):
         xs = [e.sym((B, 3), torch.bool, f"x{t}{i}", ind=True) for i in range(2)]
+        feed[0] = cfg.get("feed", ["ab"])[t % len(cfg.get("feed", ["ab"]))]
         oP = flat(step(P, xs))
         from harness.common import witness_any
         witness_any(e, "layer:a-neuron-spikes", *oP)
@@ -295,6 +299,7 @@ def checks(tier):
     con = [dict(kind=k, syn=s, B=2, delay=d, T=(3 if th else 2)) for k in ("dense", "direct", "lateral", "conv") for s in (("delta", "deltaplus", "single", "double") if th else ("delta", "single"))
            for d in (None, 2.0)]
     lay = [dict(layer=l, syn=s, B=2, T=(3 if th else 2)) for l in ("serial", "biclique", "recurrent") for s in ("delta", "single")]
+    lay += [dict(layer="biclique", syn="delta", B=B, T=3, feed=f) for B in ((2, 3) if th else (2,)) for f in (["a", "ab", "b"], ["b", "b", "a"])]      # partially fed bicliques
     trn = [dict(trainer=t, B=2, T=(3 if th else 2)) for t in ("stdp", "triplet", "mstdp", "mstdpet", "da-stdp", "da-stdpd")]
     trn += [dict(trainer=t + "-delayed", B=B, T=3) for t in ("stdp", "triplet", "mstdp") for B in ((2, 3) if th else (2,))]
     o = {"div_policy": "xr", "query_timeout_ms": 120000, "max_paths": 20000}
@@ -305,7 +310,7 @@ def checks(tier):
 BOUNDS = {
     "quick": {"batch": 2, "neurons": "8 classes, one step from an arbitrary planted state (adaptation frozen), refrac_lock on/off; the 4 adaptive classes also for two steps with adaptation frozen by eval mode and by adapt=False in training mode", "synapses": "4 classes, one step from an arbitrary planted history, "
               "delay 0 / 2dt, in-place and not, histories and delayed reads with a symbolic selector compared", "connections": "4 types x delta/single-exponential, with and without (grid) symbolic delays, T=2",
-              "layers": "Serial / Biclique / RecurrentSerial, T=2", "trainers": "STDP, TripletSTDP, MSTDP, MSTDPET, DelayAdjustedSTDP(D) with batch_reduction=sum, T=2; STDP / TripletSTDP / MSTDP with delayed=True on heterogeneous per-synapse delays, T=3"},
+              "layers": "Serial / Biclique / RecurrentSerial, T=2; Biclique stepped with only one of its two connections fed, T=3", "trainers": "STDP, TripletSTDP, MSTDP, MSTDPET, DelayAdjustedSTDP(D) with batch_reduction=sum, T=2; STDP / TripletSTDP / MSTDP with delayed=True on heterogeneous per-synapse delays, T=3"},
     "thorough": {"batch": [2, 3], "T": 3, "all four synapses in connections": True},
 }
 OUTSIDE = ["adaptation batch reduction (documented coupling)", "batch sizes above 3"]
